@@ -38,6 +38,34 @@ class Verdict:
     note: str = ""
 
 
+@dataclass
+class FlatObligation:
+    """an obligation after exploration, reduced to what travels between processes: the SMT-LIB text and a few strings"""
+
+    name: str
+    fn: str
+    clause: str
+    trace: str
+    smt: str
+    note: str = ""
+    nhyps: int = 0
+    goal_str: str = ""
+
+    @property
+    def hyps(self) -> list[int]:  # len(o.hyps) is all the report needs
+        return [0] * self.nhyps
+
+    @property
+    def goal(self) -> str:
+        return self.goal_str
+
+
+def flatten(o: Obligation) -> FlatObligation:
+    cover = o.clause.startswith("cover")
+    g = o.goal.sexpr() if hasattr(o.goal, "sexpr") else str(o.goal)  # (the Python pretty-printer is far too slow for big terms)
+    return FlatObligation(o.name, o.fn, o.clause, o.trace, to_smt2(o, cover), o.note, len(o.hyps), " ".join(g.split())[:400])
+
+
 def to_smt2(o: Obligation, cover: bool = False) -> str:
     s = z3.Solver()
     for h in o.hyps:
@@ -279,7 +307,7 @@ def discharge(obls: list[Obligation], timeout_ms: int = 10000, procs: int | None
         # covers of functions whose Spec facts are kept out of the feasibility solver (dead paths tolerated) are hard `sat`
         # queries: one short z3 attempt only; an undecided cover there is reported, not an error (report.py)
         t_ms = 3000 if cover and o.fn in cheap_covers else timeout_ms
-        jobs.append((i, to_smt2(o, cover), cover, t_ms, cross))
+        jobs.append((i, o.smt if isinstance(o, FlatObligation) else to_smt2(o, cover), cover, t_ms, cross))
     procs = procs or min(16, os.cpu_count() or 4)
     out: list[Verdict | None] = [None] * len(obls)
     if not jobs:
